@@ -126,4 +126,23 @@ example : normRun 2 1 false false "x\n\t // c \n    ".toUTF8.toList = "x\n  // c
 example : normRun 2 1 false false "  \n\n\n\t-- c \n    ".toUTF8.toList = "\n\n  -- c\n  ".toUTF8.toList := by decide +kernel
 example : normRun 2 1 false false "\n\n".toUTF8.toList = "\n\n  ".toUTF8.toList := by decide +kernel   -- blank line stays empty (defect 25)
 
+/-- **C10.fmt_pipeline_known**: the sequence of regular-expression substitutions of `LuaFormatterWriter._get_code_for_spaces`, read from
+the syntax tree of lua.py on every run (`Gen.fmtPipelines`: pattern and constant replacement of every `re.sub`, in source order), is the
+one `normRun` transcribes: tab → space; CR LF, LF CR, CR → LF; trailing spaces; the comment-leading substitutions for `--` and `//`;
+the end-of-input ones; blank-line runs; the final trailing-blank rule. An edit of that list (a pattern widened, two rules merged or
+reordered) breaks this obligation at once, whether or not a generated program shows a difference. -/
+theorem fmt_pipeline_known : Gen.fmtPipelines = [
+  ("LuaFormatterWriter._get_code_for_spaces", [("sub", [92, 116], some [32]),
+    ("sub", [92, 114, 92, 110], some [10]),
+    ("sub", [92, 110, 92, 114], some [10]),
+    ("sub", [92, 114], some [10]),
+    ("sub", [32, 43, 92, 110], some [10]),
+    ("sub", [94, 32, 42, 45, 45], some [32, 32, 45, 45]),
+    ("sub", [92, 110, 32, 42, 40, 45, 45, 124, 47, 47, 41], none),
+    ("sub", [94, 32, 42, 40, 45, 45, 124, 47, 47, 41], some [92, 49]),
+    ("sub", [92, 110, 32, 42, 92, 90], none),
+    ("sub", [94, 32, 42, 92, 90], some []),
+    ("sub", [92, 110, 92, 110, 43], some [10, 10]),
+    ("sub", [91, 32, 92, 110, 93, 43, 36], none)])] := by rfl
+
 end Pico.C10
